@@ -54,6 +54,12 @@ CHECKS['C05'] = ('every residue string of length 2..3 (quick) / 2..4 (thorough) 
                  'internal and the immonium series at charges 1..4, monoisotopic and average, against independently '
                  'computed backbone-cleavage chemistry from the frozen NIST table; b/y complementarity; the same through '
                  'mass(ion_type=...)', 'DESIGN.md section 4 / C05')
+CHECKS['C04'] = ('every peptide of length 1..4 (quick) / 1..5 (thorough) over {S,K,G,M} x {16 single ion types, 4 classes, all}; '
+                 'all 120 ion-type pairs; deviation<=2 option grid (charge lists, isotope lists, 8 loss configurations, '
+                 'max_losses, average mode, precision); modified peptides (N-/C-term, residue, static, isotope-label); '
+                 'thorough: all 65535 ion-type subsets on 2 peptides; own ion enumeration (each key once), per-ion '
+                 'agreement with mass()/mz() on the ion sequence, sequence/number/internal bookkeeping, 5 projected return '
+                 'types, Fragmenter twice', 'DESIGN.md section 4 / C04')
 NOT_APPLICABLE = {}
 
 
